@@ -72,15 +72,28 @@ OkFlt(cur, o) ==
     /\ (o.pos \in cur.prot) => /\ \A i \in DOMAIN o.acc : ~o.acc[i]
                                /\ \A i \in DOMAIN o.sub : ~o.sub[i]
 
-Props == {"C01", "C02", "C04", "C10"}
+\* ---- untrusted bytes (C03): Wire!RawDecode is the total outcome oracle ----
+OkFz(o) ==
+    LET d == IF o.small THEN W!RawDecode(o.bytes) ELSE [ok |-> o.obs_ok, size |-> o.obs_size] IN
+    /\ ~o.git_panic
+    /\ \A i \in DOMAIN o.res :
+          /\ ~o.res[i].panic
+          /\ o.res[i].ok => (d.ok /\ o.res[i].size = d.size /\ o.res[i].size <= o.n)
+          /\ ~d.ok => ~o.res[i].ok
+    /\ o.prefix_same
+    \* the harness observer agrees with the specification's framing (cross-check of the trusted base)
+    /\ o.small => (o.obs_ok = d.ok /\ (d.ok => o.obs_size = d.size))
+
+Props == {"C01", "C02", "C03", "C04", "C10"}
 Holds(p, cur, o) ==
     IF o.op = "rt"
     THEN CASE p = "C01" -> OkC01(o) [] p = "C02" -> OkC02(o) [] p = "C04" -> OkC04(o)
-           [] p = "C10" -> OkC10(o)
+           [] p = "C10" -> OkC10(o) [] p = "C03" -> (o.enc # "panic" /\ o.dec # "panic")
     ELSE IF o.op \in {"mt", "mt_from"} THEN (p = "C02" => OkMt(o))
     ELSE IF o.op = "ign" THEN (p = "C02" => OkIgn(o))
     ELSE IF o.op = "fmsg" THEN (p = (IF o.attr = "fp" THEN "C10" ELSE "C04") => OkFmsg(o))
     ELSE IF o.op = "flt" THEN (p = (IF cur.attr = "fp" THEN "C10" ELSE "C04") => OkFlt(cur, o))
+    ELSE IF o.op = "fz" THEN (p = "C03" => OkFz(o))
     ELSE TRUE
 
 VARIABLES l, nbad, cur
